@@ -105,6 +105,7 @@ func (h *H) drawCase(rt *rapid.T, prop string, excl map[string]int) *core.Case {
 		p.InPlaceOnly = true
 		p.Evolve = true
 		p.UniqueAliases = h.Open["F-K"]
+		p.SameAliasPct = 20
 		p.AliasPct = 40
 		p.MinDeps = 1
 	case "C17", "C18":
